@@ -94,9 +94,14 @@ def rule_text(spelling: str, linter: str, sub: str) -> tuple[str, str, str]:
         return "PRINT-STATEMENTS.Detected", "", ""
     if spelling == "aliasPrefix":
         return "Print-Statements", "", ""
-    if spelling == "otherRule":
+    if spelling in ("otherRule", "listFirst", "listLast"):
         o = ("srp", "violation") if linter != "srp" else ("nesting", "excessive-depth")
-        return o[0] + "." + o[1], o[0], o[1]
+        other = o[0] + "." + o[1]
+        if spelling == "listFirst":
+            return full + "," + other, o[0], o[1]
+        if spelling == "listLast":
+            return other + "," + full, o[0], o[1]
+        return other, o[0], o[1]
     return "", "", ""
 
 
@@ -182,6 +187,8 @@ def names(d: dict, v: dict) -> bool:
     if sp in ("linterPrefix", "prefixStar"):
         return v["linter"] == d["tlinter"]
     if sp == "bare":
+        return True
+    if sp in ("listFirst", "listLast") and v["linter"] == d["tlinter"] and v["sub"] == d["tsub"]:
         return True
     return v["linter"] == d["olinter"] and v["sub"] == d["osub"]
 
